@@ -160,10 +160,14 @@ func runC02Stall(s *kernel.Sim) {
 	}
 }
 
-var srcAddrs = []string{"10.1.2.3:5555", "[2001:db8::7]:4444", "host.example.org:3333", "[::1]:2222", "203.0.113.9:1", "[fe80::1]:9", ":7777", "[::]:8888", "0.0.0.0:9999"}
+var srcAddrs = []string{"10.1.2.3:5555", "[2001:db8::7]:4444", "host.example.org:3333", "[::1]:2222", "203.0.113.9:1", "[fe80::1]:9", ":7777", "[::]:8888", "0.0.0.0:9999", "[fe80::1%eth0]:51234", "[fe80::5%abc0]:6"}
 
 func overrides(a, other *Actor, pick int) string {
-	switch pick % 16 {
+	switch pick % 18 {
+	case 16:
+		return "enode://" + a.ID + "@[fe80::2%25eth1]:30306" // IPv6 literal with a zone
+	case 17:
+		return "enode://" + a.ID + "@[::]:30303" // what geth reports: unspecified host, the connection's address counts
 	case 0, 1, 2:
 		return ""
 	case 3:
@@ -307,7 +311,7 @@ func runWorldSeq(s *kernel.Sim, p profile) {
 					payout = a.Wallet.Addr
 				}
 				if p.uriOverrides && a.IsHost {
-					ov = overrides(a, anyActor(), d.choose("override", 16))
+					ov = overrides(a, anyActor(), d.choose("override", 18))
 				}
 				d.Connect(a, payout, ov, false)
 			case 2: // keep-alive
@@ -390,7 +394,7 @@ func runWorldSeq(s *kernel.Sim, p profile) {
 				if a.IsHost {
 					ov := ""
 					if p.uriOverrides {
-						ov = overrides(a, anyActor(), d.choose("override", 16))
+						ov = overrides(a, anyActor(), d.choose("override", 18))
 					}
 					d.Connect(a, "", ov, true)
 				} else {
